@@ -322,7 +322,7 @@ func WorkerMain() {
 		os.WriteFile(fmt.Sprintf("%s/keys-%d.bin", *out, *offset), kb, 0o644)
 		os.Exit(code)
 	}
-	curFile := fmt.Sprintf("%s/cur-%d", *out, *offset)
+	curF, _ := os.Create(fmt.Sprintf("%s/cur-%d", *out, *offset))
 	for i := int64(0); ; i++ {
 		if *maxruns > 0 && i >= *maxruns {
 			break
@@ -342,7 +342,9 @@ func WorkerMain() {
 		}
 		// leave a note of what is about to run: if the code under test kills the
 		// process (fatal error, stack overflow), the driver re-runs this seed
-		os.WriteFile(curFile, []byte(fmt.Sprint(seed)), 0o644)
+		if curF != nil {
+			curF.WriteAt([]byte(fmt.Sprintf("%-24d", seed)), 0) // one pwrite, no open/close
+		}
 		s := w.Gen(NewRng(seed), *tier)
 		s.Seed = seed
 		s.Property = *prop
@@ -380,13 +382,14 @@ func WorkerMain() {
 		for k, v := range x.Out.Probes {
 			res.Probes[k] += v
 		}
-		if len(keys) < 4_000_000 {
-			for _, k := range x.Out.Keys {
-				keys[k] = struct{}{}
+		// one key per scenario: what the workload says distinguishes the case,
+		// folded with the switch signature of its scheduled phases
+		if len(keys) < 4_000_000 && (len(x.Out.Keys) > 0 || x.Out.SwitchIn > 0) {
+			k := x.Out.SigHash
+			for _, wk := range x.Out.Keys {
+				k = Mix(k, wk)
 			}
-			if x.Out.SwitchIn > 0 {
-				keys[x.Out.SigHash] = struct{}{}
-			}
+			keys[k] = struct{}{}
 		}
 		if x.Out.Violation != nil && isKnown(known, *prop, x.Out.Violation.Class) {
 			if res.Known == nil {
